@@ -38,8 +38,8 @@ CONSTANTS Modes,         \* subset of {"gen", "run"}
           IterSets,      \* subset of {"0-5-10", "5-10", "0"}
           AllPhi         \* TRUE: every .phi variant with every run; FALSE: one variant per run
 
-VARIABLES mode, file, pc, acc
-vars == <<mode, file, pc, acc>>
+VARIABLES mode, file, lines, pc, acc     \* lines: the line sequence of the file (computed once)
+vars == <<mode, file, lines, pc, acc>>
 
 BIG == 99999          \* token: the writer prints 1.00000E+10
 
@@ -132,7 +132,6 @@ ExtLines(f) ==
                   ELSE LET rows == ExtRows(f.cfg, f.tabs[k]) IN
                        <<[k |-> "T", no |-> f.tabs[k].no], [k |-> "H"]>> \o [i \in 1..Len(rows) |-> [k |-> "R", row |-> rows[i]]] \o Tab(k + 1)
     IN Tab(1)
-Lines == IF mode = "gen" THEN GenLines(file) ELSE ExtLines(file)
 
 \* ---------------------------------------------------------------- initial states: the files
 Cfgs == {c \in [nth : 1..MaxTheta, om : OmegaKinds, sg : SigmaKinds, fix : FixPats] : CfgOK(c)}
@@ -146,7 +145,7 @@ PhiVariants == 0..2      \* 0: ETA columns; 1: ETA columns and an individual wit
 Init == /\ pc = 1
         /\ acc = <<>>
         /\ \/ /\ "gen" \in Modes /\ mode = "gen"
-              /\ \E tabs \in GenFiles : file = [tabs |-> tabs]
+              /\ \E tabs \in GenFiles : file = [tabs |-> tabs] /\ lines = GenLines([tabs |-> tabs])
            \/ /\ "run" \in Modes /\ mode = "run"
               /\ \E cfg \in Cfgs, tabs \in ExtFiles, pv \in PhiVariants :
                     \* an aborted earlier step followed by a later step does not occur; all steps log the same iterations
@@ -154,6 +153,7 @@ Init == /\ pc = 1
                     /\ \A k \in 1..Len(tabs) : tabs[k].iters = tabs[1].iters
                     /\ (~AllPhi => pv = ((cfg.nth + Len(tabs) + (IF tabs[Len(tabs)].rows = "full" THEN 1 ELSE 0)) % 3))
                     /\ file = [cfg |-> cfg, tabs |-> tabs, phikind |-> IF pv = 2 THEN "PHI" ELSE "ETA", zero |-> pv = 1]
+                    /\ lines = ExtLines([cfg |-> cfg, tabs |-> tabs])
 
 \* ---------------------------------------------------------------- the reader: a line automaton
 NoReg == [c \in Codes |-> 0]
@@ -167,12 +167,12 @@ ReadR(l) == LET k == Len(acc)
             IN acc' = [acc EXCEPT ![k].rows = Append(@, r),
                                   ![k].reg = IF r.special THEN [@ EXCEPT ![r.n] = idx] ELSE @,
                                   ![k].lastit = IF ~r.special /\ (@ = 0 \/ acc[k].rows[@].n <= r.n) THEN idx ELSE @]
-ReadTitle == pc <= Len(Lines) /\ Lines[pc].k = "T" /\ ReadT(Lines[pc]) /\ pc' = pc + 1 /\ UNCHANGED <<mode, file>>
-ReadHeader == pc <= Len(Lines) /\ Lines[pc].k = "H" /\ Len(acc) > 0 /\ ReadH /\ pc' = pc + 1 /\ UNCHANGED <<mode, file>>
-ReadRow == pc <= Len(Lines) /\ Lines[pc].k = "R" /\ Len(acc) > 0 /\ acc[Len(acc)].hdr = 1 /\ ReadR(Lines[pc]) /\ pc' = pc + 1 /\ UNCHANGED <<mode, file>>
+ReadTitle == pc <= Len(lines) /\ lines[pc].k = "T" /\ ReadT(lines[pc]) /\ pc' = pc + 1 /\ UNCHANGED <<mode, file, lines>>
+ReadHeader == pc <= Len(lines) /\ lines[pc].k = "H" /\ Len(acc) > 0 /\ ReadH /\ pc' = pc + 1 /\ UNCHANGED <<mode, file, lines>>
+ReadRow == pc <= Len(lines) /\ lines[pc].k = "R" /\ Len(acc) > 0 /\ acc[Len(acc)].hdr = 1 /\ ReadR(lines[pc]) /\ pc' = pc + 1 /\ UNCHANGED <<mode, file, lines>>
 Next == ReadTitle \/ ReadHeader \/ ReadRow
 Spec == Init /\ [][Next]_vars
-Done == pc = Len(Lines) + 1
+Done == pc = Len(lines) + 1
 
 \* what the automaton reports for table k of an .ext file
 AutoRow(k, c) == IF acc[k].reg[c] = 0 THEN [special |-> TRUE, n |-> 0 - 1, vals |-> <<>>, obj |-> 0] ELSE acc[k].rows[acc[k].reg[c]]
@@ -245,14 +245,14 @@ CovExpected(cfg) == LET K == SetToSeq(KeptIdx(cfg)) IN
 Abs(x) == IF x < 0 THEN 0 - x ELSE x
 RECURSIVE SumAbs(_, _, _)
 SumAbs(k, n, j) == IF j > n THEN 0 ELSE (IF j = k THEN 0 ELSE Abs(CovVal(k, j))) + SumAbs(k, n, j + 1)
-CovDominant == mode = "run" => \A k \in 1..Len(FileOrder(file.cfg)) : CovVal(k, k) > SumAbs(k, Len(FileOrder(file.cfg)), 1)
+CovDominant == (Done /\ mode = "run") => \A k \in 1..Len(FileOrder(file.cfg)) : CovVal(k, k) > SumAbs(k, Len(FileOrder(file.cfg)), 1)
 \* second definition of the expected frame: delete the zero rows/columns of the FILE matrix, then permute
 CovByDeletion(cfg) ==
     LET n == Len(FileOrder(cfg))
         nonzero == {k \in 1..n : \E j \in 1..n : CovFileVal(cfg, k, j) # 0}
         K == SetToSeq({k \in 1..Len(ReportOrder(cfg)) : FilePos(cfg, ReportOrder(cfg)[k]) \in nonzero})
     IN [a \in 1..Len(K) |-> [b \in 1..Len(K) |-> CovFileVal(cfg, FilePos(cfg, ReportOrder(cfg)[K[a]]), FilePos(cfg, ReportOrder(cfg)[K[b]]))]]
-CovTwoWays == mode = "run" => CovExpected(file.cfg) = CovByDeletion(file.cfg)
+CovTwoWays == (Done /\ mode = "run") => CovExpected(file.cfg) = CovByDeletion(file.cfg)
 
 \* .phi : subjects with ids 1, 3, 7; ETA(i) / PHI(i); ETC flattened lower triangle row-wise; OBJ
 PhiIds == <<1, 3, 7>>
@@ -269,7 +269,7 @@ PhiExpected(t) == LET n == Dim(file.cfg.om)
                           etc |-> [i \in 1..n |-> [j \in 1..n |-> IF i >= j THEN EtcVal(t, S[q], i, j) ELSE EtcVal(t, S[q], j, i)]]]]
 \* the flattened row as written, and the transcription of flattened_to_symmetric proved equal to the reference
 PhiFlat(t, s) == LET tr == TriSeq(Dim(file.cfg.om)) IN [k \in 1..Len(tr) |-> IF PhiZero(s) THEN 0 ELSE EtcVal(t, s, tr[k][1], tr[k][2])]
-PhiTriOK == mode = "run" =>
+PhiTriOK == (Done /\ mode = "run") =>
     LET n == Dim(file.cfg.om) tr == TriSeq(n) IN
     /\ \A k \in 1..Len(tr) : TriPos(tr[k][1], tr[k][2]) = k
     /\ \A s \in {1, 3} : \A i, j \in 1..n :
